@@ -6,15 +6,524 @@ import Girc.Model.Locks
 namespace Girc.Proofs.Locks
 open Girc.Model.Locks
 
+/-! ### the common invariant -/
+
+/-- The effect of one operation on the held multiset of the executing thread. -/
+def heldAfter (h : Held) : Op → Held
+  | .acq l e => (l, e) :: h
+  | .rel l e => h.erase (l, e)
+  | .access _ _ => h
+
+/-- What both static scans have in common. -/
+structure Scan (P : Held → List Op → Prop) : Prop where
+  step : ∀ h op rest, P h (op :: rest) → P (heldAfter h op) rest
+  rel : ∀ h l e rest, P h (.rel l e :: rest) → (l, e) ∈ h
+
+/-- The lock state agrees with the held multisets. -/
+structure Agree (locks : LockId → LockSt) (H : Tid → Held) : Prop where
+  wr1 : ∀ l t, (locks l).writer = some t → (H t).count (l, true) = 1
+  wr0 : ∀ l t, (locks l).writer ≠ some t → (H t).count (l, true) = 0
+  rd : ∀ l t, (locks l).readers.count t = (H t).count (l, false)
+  excl : ∀ l, (locks l).writer ≠ none → (locks l).readers = []
+
+def Inv (P : Held → List Op → Prop) (c : Cfg) : Prop :=
+  ∃ H : Tid → Held,
+    (∀ t rem, c.progs[t]? = some rem → P (H t) rem) ∧
+    (∀ t, c.progs[t]? = none → H t = []) ∧
+    Agree c.locks H
+
+theorem agree_step {locks locks' : LockId → LockSt} {H : Tid → Held} {t : Tid} {op : Op}
+    (hag : Agree locks H) (hop : opStep locks t op = some locks')
+    (hrel : ∀ l e, op = .rel l e → (l, e) ∈ H t) :
+    Agree locks' (fun u => if u = t then heldAfter (H t) op else H u) := by
+  cases op with
+  | acq l e =>
+    cases e with
+    | true =>
+      simp only [opStep] at hop
+      split at hop
+      · rename_i hc
+        obtain ⟨hw, hr⟩ := hc
+        injection hop with hop; subst hop
+        refine ⟨?_, ?_, ?_, ?_⟩
+        · intro l' u hwr
+          by_cases hl : l' = l
+          · subst hl
+            simp [setLock] at hwr
+            subst hwr
+            have := hag.wr0 l' t (by rw [hw]; simp)
+            simp [heldAfter, this]
+          · simp [setLock, hl] at hwr
+            have := hag.wr1 l' u hwr
+            by_cases hu : u = t
+            · subst hu; simp [heldAfter, List.count_cons, this]; exact fun h => hl h.symm
+            · simp [hu, this]
+        · intro l' u hwr
+          by_cases hl : l' = l
+          · subst hl
+            simp [setLock] at hwr
+            have hu : u ≠ t := fun h => hwr h.symm
+            simp [hu]
+            exact hag.wr0 l' u (by rw [hw]; simp)
+          · simp [setLock, hl] at hwr
+            have := hag.wr0 l' u hwr
+            by_cases hu : u = t
+            · subst hu; simp [heldAfter, List.count_cons, this]; exact fun h => hl h.symm
+            · simp [hu, this]
+        · intro l' u
+          by_cases hl : l' = l
+          · subst hl
+            have := hag.rd l' u
+            rw [hr] at this
+            by_cases hu : u = t
+            · subst hu; simp [setLock, heldAfter] ; simpa using this
+            · simp [setLock, hu]; simpa using this
+          · have := hag.rd l' u
+            by_cases hu : u = t
+            · subst hu; simp [setLock, hl, heldAfter, this]
+            · simp [setLock, hl, hu, this]
+        · intro l' hwr
+          by_cases hl : l' = l
+          · subst hl; simp [setLock]
+          · simp [setLock, hl] at hwr ⊢
+            exact hag.excl l' hwr
+      · cases hop
+    | false =>
+      simp only [opStep] at hop
+      split at hop
+      · rename_i hw
+        injection hop with hop; subst hop
+        refine ⟨?_, ?_, ?_, ?_⟩
+        · intro l' u hwr
+          by_cases hl : l' = l
+          · subst hl
+            simp [setLock, hw] at hwr
+          · simp [setLock, hl] at hwr
+            have := hag.wr1 l' u hwr
+            by_cases hu : u = t
+            · subst hu; simp [heldAfter, this]
+            · simp [hu, this]
+        · intro l' u hwr
+          have h0 : (H u).count (l', true) = 0 := by
+            by_cases hl : l' = l
+            · subst hl
+              exact hag.wr0 l' u (by rw [hw]; simp)
+            · simp [setLock, hl] at hwr
+              exact hag.wr0 l' u hwr
+          by_cases hu : u = t
+          · subst hu; simp [heldAfter, h0]
+          · simp [hu, h0]
+        · intro l' u
+          have := hag.rd l' u
+          by_cases hl : l' = l
+          · subst hl
+            by_cases hu : u = t
+            · subst hu; simp [setLock, heldAfter, this]
+            · have hu' : ¬ t = u := fun h => hu h.symm
+              simp [setLock, hu, hu', this]
+          · by_cases hu : u = t
+            · subst hu; simp [setLock, hl, heldAfter, List.count_cons, this]; exact fun h => hl h.symm
+            · simp [setLock, hl, hu, this]
+        · intro l' hwr
+          by_cases hl : l' = l
+          · subst hl; simp [setLock, hw] at hwr
+          · simp [setLock, hl] at hwr ⊢
+            exact hag.excl l' hwr
+      · cases hop
+  | rel l e =>
+    have hmem := hrel l e rfl
+    cases e with
+    | true =>
+      simp only [opStep] at hop
+      split at hop
+      · rename_i hw
+        injection hop with hop; subst hop
+        refine ⟨?_, ?_, ?_, ?_⟩
+        · intro l' u hwr
+          by_cases hl : l' = l
+          · subst hl
+            simp [setLock] at hwr
+          · simp [setLock, hl] at hwr
+            have := hag.wr1 l' u hwr
+            by_cases hu : u = t
+            · subst hu; simp [heldAfter, hl, this]
+            · simp [hu, this]
+        · intro l' u hwr
+          by_cases hl : l' = l
+          · subst hl
+            by_cases hu : u = t
+            · subst hu
+              have := hag.wr1 l' u hw
+              simp [heldAfter, this]
+            · simp [hu]
+              exact hag.wr0 l' u (by rw [hw]; simp; exact fun h => hu h.symm)
+          · simp [setLock, hl] at hwr
+            have := hag.wr0 l' u hwr
+            by_cases hu : u = t
+            · subst hu; simp [heldAfter, hl, this]
+            · simp [hu, this]
+        · intro l' u
+          have := hag.rd l' u
+          by_cases hl : l' = l
+          · subst hl
+            by_cases hu : u = t
+            · subst hu; simp [setLock, heldAfter, this]
+            · simp [setLock, hu, this]
+          · by_cases hu : u = t
+            · subst hu; simp [setLock, hl, heldAfter, this]
+            · simp [setLock, hl, hu, this]
+        · intro l' hwr
+          by_cases hl : l' = l
+          · subst hl; simp [setLock] at hwr
+          · simp [setLock, hl] at hwr ⊢
+            exact hag.excl l' hwr
+      · cases hop
+    | false =>
+      simp only [opStep] at hop
+      split at hop
+      · rename_i hr
+        injection hop with hop; subst hop
+        refine ⟨?_, ?_, ?_, ?_⟩
+        · intro l' u hwr
+          have hwr' : (locks l').writer = some u := by
+            by_cases hl : l' = l
+            · subst hl; simpa [setLock] using hwr
+            · simpa [setLock, hl] using hwr
+          have := hag.wr1 l' u hwr'
+          by_cases hu : u = t
+          · subst hu; simp [heldAfter, this]
+          · simp [hu, this]
+        · intro l' u hwr
+          have hwr' : (locks l').writer ≠ some u := by
+            by_cases hl : l' = l
+            · subst hl; simpa [setLock] using hwr
+            · simpa [setLock, hl] using hwr
+          have := hag.wr0 l' u hwr'
+          by_cases hu : u = t
+          · subst hu; simp [heldAfter, this]
+          · simp [hu, this]
+        · intro l' u
+          have := hag.rd l' u
+          by_cases hl : l' = l
+          · subst hl
+            by_cases hu : u = t
+            · subst hu; simp [setLock, heldAfter, this]
+            · simp [setLock, hu, this]
+          · by_cases hu : u = t
+            · subst hu; simp [setLock, hl, heldAfter, this]
+            · simp [setLock, hl, hu, this]
+        · intro l' hwr
+          by_cases hl : l' = l
+          · subst hl
+            simp [setLock] at hwr ⊢
+            have := hag.excl l' hwr
+            simp [this]
+          · simp [setLock, hl] at hwr ⊢
+            exact hag.excl l' hwr
+      · cases hop
+  | access x w =>
+    simp only [opStep] at hop
+    injection hop with hop; subst hop
+    have : (fun u => if u = t then heldAfter (H t) (Op.access x w) else H u) = H := by
+      funext u
+      by_cases hu : u = t
+      · subst hu; simp [heldAfter]
+      · simp [hu]
+    rw [this]; exact hag
+
+theorem inv_init (P : Held → List Op → Prop) (progs : List (List Op))
+    (hd : ∀ p ∈ progs, P [] p) : Inv P (initCfg progs) := by
+  refine ⟨fun _ => [], ?_, ?_, ?_⟩
+  · intro t rem h
+    exact hd rem (List.mem_of_getElem? h)
+  · intro t _; rfl
+  · refine ⟨?_, ?_, ?_, ?_⟩ <;> simp [initCfg]
+
+theorem inv_step {P : Held → List Op → Prop} (hP : Scan P) {c c' : Cfg} {t : Tid}
+    (hi : Inv P c) (hs : step c t = some c') : Inv P c' := by
+  obtain ⟨H, hprog, hnone, hag⟩ := hi
+  unfold step at hs
+  split at hs
+  · rename_i op rest hpt
+    split at hs
+    · rename_i locks' hop
+      injection hs with hs; subst hs
+      have hPt := hprog t _ hpt
+      have hlt : t < c.progs.length := by
+        rcases Nat.lt_or_ge t c.progs.length with h | h
+        · exact h
+        · rw [List.getElem?_eq_none h] at hpt; cases hpt
+      refine ⟨fun u => if u = t then heldAfter (H t) op else H u, ?_, ?_, ?_⟩
+      · intro u rem hu
+        by_cases hut : u = t
+        · subst hut
+          simp [List.getElem?_set_self hlt] at hu
+          subst hu
+          simpa using hP.step _ _ _ hPt
+        · have hut' : t ≠ u := fun h => hut h.symm
+          simp [List.getElem?_set_ne hut'] at hu
+          simpa [hut] using hprog u rem hu
+      · intro u hu
+        by_cases hut : u = t
+        · subst hut
+          simp [List.getElem?_set_self hlt] at hu
+        · have hut' : t ≠ u := fun h => hut h.symm
+          simp [List.getElem?_set_ne hut'] at hu
+          simpa [hut] using hnone u (by simpa using hu)
+      · exact agree_step hag hop (fun l e h => by subst h; exact hP.rel _ _ _ _ hPt)
+    · cases hs
+  · cases hs
+
+theorem inv_reach {P : Held → List Op → Prop} (hP : Scan P) {progs : List (List Op)}
+    (hd : ∀ p ∈ progs, P [] p) {c : Cfg} (h : Reach progs c) : Inv P c := by
+  induction h with
+  | init => exact inv_init P progs hd
+  | step t _ hs ih => exact inv_step hP ih hs
+
+/-! ### lockset discipline ⇒ no data race -/
+
+theorem scan_covered (guard : Res → LockId) : Scan (fun h p => covered guard h p = true) := by
+  refine ⟨?_, ?_⟩
+  · intro h op rest hc
+    cases op with
+    | acq l e => simpa [covered, heldAfter] using hc
+    | rel l e =>
+      simp [covered] at hc
+      simpa [heldAfter] using hc.2
+    | access x w =>
+      simp [covered] at hc
+      simpa [heldAfter] using hc.2
+  · intro h l e rest hc
+    simp [covered] at hc
+    exact hc.1
+
+theorem next_eq {c : Cfg} {t : Tid} {op : Op} (h : c.next t = some op) :
+    ∃ rest, c.progs[t]? = some (op :: rest) := by
+  unfold Cfg.next at h
+  cases hp : c.progs[t]? with
+  | none => rw [hp] at h; cases h
+  | some p =>
+    rw [hp] at h
+    cases p with
+    | nil => cases h
+    | cons a rest =>
+      simp at h
+      subst h
+      exact ⟨rest, rfl⟩
+
 /-- If every thread's program is covered (every access under its guard, exclusively for writes), no
     reachable configuration is a data race. -/
 theorem lockset_sound (guard : Res → LockId) (progs : List (List Op))
-    (hd : ∀ p ∈ progs, covered guard [] p = true) (c : Cfg) (h : Reach progs c) : ¬ Race c := by sorry
+    (hd : ∀ p ∈ progs, covered guard [] p = true) (c : Cfg) (h : Reach progs c) : ¬ Race c := by
+  obtain ⟨H, hprog, _, hag⟩ := inv_reach (scan_covered guard) hd h
+  -- the asymmetric core: `t₁` writes
+  have core : ∀ t₁ t₂ x w₂, t₁ ≠ t₂ → c.next t₁ = some (.access x true) →
+      c.next t₂ = some (.access x w₂) → False := by
+    intro t₁ t₂ x w₂ hne h₁ h₂
+    obtain ⟨r₁, hp₁⟩ := next_eq h₁
+    obtain ⟨r₂, hp₂⟩ := next_eq h₂
+    have c₁ := hprog _ _ hp₁
+    have c₂ := hprog _ _ hp₂
+    simp [covered] at c₁ c₂
+    have hw₁ : (c.locks (guard x)).writer = some t₁ := by
+      apply Classical.byContradiction
+      intro hn
+      have := hag.wr0 _ _ hn
+      exact (List.count_eq_zero.mp this) c₁.1
+    have hwt : ∀ u, (guard x, true) ∈ H u → (c.locks (guard x)).writer = some u := by
+      intro u hu
+      apply Classical.byContradiction
+      intro hn
+      have := hag.wr0 _ _ hn
+      exact (List.count_eq_zero.mp this) hu
+    have hr : (c.locks (guard x)).readers = [] := hag.excl _ (by rw [hw₁]; simp)
+    have hrd : (guard x, false) ∈ H t₂ → False := by
+      intro hm
+      have := hag.rd (guard x) t₂
+      rw [hr] at this
+      simp at this
+      exact (List.count_eq_zero.mp this.symm) hm
+    have hwr : (guard x, true) ∈ H t₂ → False := by
+      intro hm
+      have := hwt t₂ hm
+      rw [hw₁] at this
+      exact hne (by simpa using this)
+    cases w₂ with
+    | true => simp at c₂; exact hwr c₂.1
+    | false =>
+      simp at c₂
+      rcases c₂.1 with h | h
+      · exact hwr h
+      · exact hrd h
+  rintro ⟨t₁, t₂, x, w₁, w₂, hne, h₁, h₂, hw⟩
+  rcases hw with hw | hw
+  · subst hw; exact core t₁ t₂ x w₂ hne h₁ h₂
+  · subst hw; exact core t₂ t₁ x w₁ (fun h => hne h.symm) h₂ h₁
+
+/-! ### rank discipline ⇒ no deadlock -/
+
+theorem scan_ordered (rank : LockId → Nat) : Scan (fun h p => ordered rank h p = true) := by
+  refine ⟨?_, ?_⟩
+  · intro h op rest hc
+    cases op with
+    | acq l e =>
+      simp [ordered] at hc
+      simpa [heldAfter] using hc.2
+    | rel l e =>
+      simp [ordered] at hc
+      simpa [heldAfter] using hc.2
+    | access x w => simpa [ordered, heldAfter] using hc
+  · intro h l e rest hc
+    simp [ordered] at hc
+    exact hc.1
+
+/-- The ranks of the locks awaited by the threads of a finite program list are bounded. -/
+theorem awaited_bound (rank : LockId → Nat) (ps : List (List Op)) :
+    ∃ B, ∀ (t : Nat) l e rest, ps[t]? = some (Op.acq l e :: rest) → rank l < B := by
+  induction ps with
+  | nil => exact ⟨0, by intro t l e rest h; cases h⟩
+  | cons p ps ih =>
+    obtain ⟨B, hB⟩ := ih
+    have hp : ∃ B', ∀ l e rest, p = .acq l e :: rest → rank l < B' := by
+      cases p with
+      | nil => exact ⟨0, by intro l e rest h; cases h⟩
+      | cons op r =>
+        cases op with
+        | acq l e => exact ⟨rank l + 1, by intro l' e' rest h; injection h with h1 _; injection h1 with h1 _; subst h1; omega⟩
+        | rel l e => exact ⟨0, by intro l' e' rest h; injection h with h1 _; cases h1⟩
+        | access x w => exact ⟨0, by intro l' e' rest h; injection h with h1 _; cases h1⟩
+    obtain ⟨B', hB'⟩ := hp
+    refine ⟨max B B', ?_⟩
+    intro t l e rest h
+    cases t with
+    | zero =>
+      simp at h
+      have := hB' l e rest h
+      omega
+    | succ t =>
+      simp at h
+      have := hB t l e rest h
+      omega
 
 /-- If every thread's program acquires locks in increasing rank order, releases what it acquired and
     ends holding nothing, no reachable configuration is deadlocked. -/
 theorem order_sound (rank : LockId → Nat) (progs : List (List Op))
-    (ho : ∀ p ∈ progs, ordered rank [] p = true) (c : Cfg) (h : Reach progs c) : ¬ Deadlocked c := by sorry
+    (ho : ∀ p ∈ progs, ordered rank [] p = true) (c : Cfg) (h : Reach progs c) : ¬ Deadlocked c := by
+  obtain ⟨H, hprog, hnone, hag⟩ := inv_reach (scan_ordered rank) ho h
+  rintro ⟨⟨t₀, ops₀, hp₀, hne₀⟩, hstuck⟩
+  -- every unfinished thread is blocked at an acquisition
+  have blocked : ∀ t ops, c.progs[t]? = some ops → ops ≠ [] →
+      ∃ l e rest, ops = .acq l e :: rest ∧ opStep c.locks t (.acq l e) = none := by
+    intro t ops hp hne
+    cases ops with
+    | nil => exact absurd rfl hne
+    | cons op rest =>
+      have hs := hstuck t
+      unfold step at hs
+      rw [hp] at hs
+      simp only at hs
+      have hop : opStep c.locks t op = none := by
+        cases ho : opStep c.locks t op with
+        | none => rfl
+        | some l' => rw [ho] at hs; cases hs
+      cases op with
+      | acq l e => exact ⟨l, e, rest, rfl, hop⟩
+      | rel l e =>
+        exfalso
+        have hc := hprog t _ hp
+        have hm : (l, e) ∈ H t := (scan_ordered rank).rel _ _ _ _ hc
+        cases e with
+        | true =>
+          have hw : (c.locks l).writer = some t := by
+            apply Classical.byContradiction
+            intro hn
+            exact (List.count_eq_zero.mp (hag.wr0 _ _ hn)) hm
+          simp [opStep, hw] at hop
+        | false =>
+          have hr : t ∈ (c.locks l).readers := by
+            have := hag.rd l t
+            have hpos : 0 < (H t).count (l, false) := List.count_pos_iff.mpr hm
+            rw [← this] at hpos
+            exact List.count_pos_iff.mp hpos
+          simp [opStep, hr] at hop
+      | access x w => simp [opStep] at hop
+  -- whoever holds something is unfinished
+  have holder : ∀ u p, p ∈ H u → ∃ ops, c.progs[u]? = some ops ∧ ops ≠ [] := by
+    intro u p hpu
+    cases hq : c.progs[u]? with
+    | none => rw [hnone u hq] at hpu; cases hpu
+    | some ops =>
+      refine ⟨ops, rfl, ?_⟩
+      intro he
+      subst he
+      have := hprog u _ hq
+      simp [ordered] at this
+      rw [this] at hpu; cases hpu
+  -- a blocked thread waits for a thread blocked at a lock of strictly greater rank
+  have nxt : ∀ (t : Tid) l e rest, c.progs[t]? = some (Op.acq l e :: rest) →
+      ∃ (t' : Tid) (l' : LockId) (e' : Bool) (rest' : List Op), c.progs[t']? = some (Op.acq l' e' :: rest') ∧ rank l < rank l' := by
+    intro t l e rest hp
+    obtain ⟨l₁, e₁, rest₁, heq, hop⟩ := blocked t _ hp (by simp)
+    injection heq with h1 h2
+    injection h1 with h1 h3
+    subst h1; subst h3; subst h2
+    -- some thread `u` holds `l` in some mode
+    have hu : ∃ u m, (l, m) ∈ H u := by
+      cases e with
+      | true =>
+        simp only [opStep] at hop
+        split at hop
+        · cases hop
+        · rename_i hc
+          cases hw : (c.locks l).writer with
+          | some u =>
+            refine ⟨u, true, ?_⟩
+            have := hag.wr1 l u hw
+            exact List.count_pos_iff.mp (by omega)
+          | none =>
+            cases hr : (c.locks l).readers with
+            | nil => exact absurd ⟨hw, hr⟩ hc
+            | cons u rs =>
+              refine ⟨u, false, ?_⟩
+              have := hag.rd l u
+              rw [hr] at this
+              simp at this
+              exact List.count_pos_iff.mp (by omega)
+      | false =>
+        simp only [opStep] at hop
+        split at hop
+        · cases hop
+        · rename_i hc
+          cases hw : (c.locks l).writer with
+          | some u =>
+            refine ⟨u, true, ?_⟩
+            have := hag.wr1 l u hw
+            exact List.count_pos_iff.mp (by omega)
+          | none => exact absurd hw hc
+    obtain ⟨u, m, hum⟩ := hu
+    obtain ⟨ops, hpu, hneu⟩ := holder u _ hum
+    obtain ⟨l', e', rest', heq', _⟩ := blocked u ops hpu hneu
+    subst heq'
+    refine ⟨u, l', e', rest', hpu, ?_⟩
+    have := hprog u _ hpu
+    simp only [ordered, Bool.and_eq_true, List.all_eq_true, decide_eq_true_eq] at this
+    exact this.1 (l, m) hum
+  have chain : ∀ n : Nat, ∀ (t : Tid) l e rest, c.progs[t]? = some (Op.acq l e :: rest) →
+      ∃ (t' : Tid) (l' : LockId) (e' : Bool) (rest' : List Op), c.progs[t']? = some (Op.acq l' e' :: rest') ∧ rank l + n ≤ rank l' := by
+    intro n
+    induction n with
+    | zero => intro t l e rest hp; exact ⟨t, l, e, rest, hp, by omega⟩
+    | succ n ih =>
+      intro t l e rest hp
+      obtain ⟨t₁, l₁, e₁, rest₁, hp₁, hlt⟩ := nxt t l e rest hp
+      obtain ⟨t₂, l₂, e₂, rest₂, hp₂, hle⟩ := ih t₁ l₁ e₁ rest₁ hp₁
+      exact ⟨t₂, l₂, e₂, rest₂, hp₂, by omega⟩
+  obtain ⟨B, hB⟩ := awaited_bound rank c.progs
+  obtain ⟨l, e, rest, heq, _⟩ := blocked t₀ ops₀ hp₀ hne₀
+  subst heq
+  obtain ⟨t', l', e', rest', hp', hle⟩ := chain B t₀ l e rest hp₀
+  have := hB t' l' e' rest' hp'
+  omega
 
 /-- Non-vacuity: a writer and a reader of the same resource under its RW lock are covered and ordered. -/
 example : covered (fun _ => 0) [] [.acq 0 true, .access 7 true, .rel 0 true] = true ∧
@@ -27,6 +536,20 @@ example : Race (initCfg [[.access 7 true], [.access 7 true]]) :=
 
 /-- … and does deadlock: two threads taking two locks in opposite orders. -/
 theorem opposite_orders_deadlock :
-    ∃ c, Reach [[.acq 0 true, .acq 1 true], [.acq 1 true, .acq 0 true]] c ∧ Deadlocked c := by sorry
+    ∃ c, Reach [[.acq 0 true, .acq 1 true], [.acq 1 true, .acq 0 true]] c ∧ Deadlocked c := by
+  let locks₁ : LockId → LockSt := setLock (fun _ => {}) 0 { writer := some 0, readers := [] }
+  let locks₂ : LockId → LockSt := setLock locks₁ 1 { writer := some 1, readers := [] }
+  refine ⟨{ progs := [[.acq 1 true], [.acq 0 true]], locks := locks₂ }, ?_, ?_⟩
+  · have s₁ : step (initCfg [[.acq 0 true, .acq 1 true], [.acq 1 true, .acq 0 true]]) 0 =
+        some { progs := [[Op.acq 1 true], [Op.acq 1 true, Op.acq 0 true]], locks := locks₁ } := rfl
+    have s₂ : step { progs := [[Op.acq 1 true], [Op.acq 1 true, Op.acq 0 true]], locks := locks₁ } 1 =
+        some { progs := [[Op.acq 1 true], [Op.acq 0 true]], locks := locks₂ } := rfl
+    exact Reach.step 1 (Reach.step 0 Reach.init s₁) s₂
+  · refine ⟨⟨0, [.acq 1 true], rfl, by simp⟩, ?_⟩
+    intro t
+    match t with
+    | 0 => rfl
+    | 1 => rfl
+    | t + 2 => rfl
 
 end Girc.Proofs.Locks
